@@ -53,3 +53,89 @@ Proof.
   - vm_compute. lia.
   - vm_compute. discriminate.
 Qed.
+
+(* ---- C06: an accepted token, and the same envelope with another signature refused ---- *)
+Definition ex_sign (m : str) : str := firstn 6 m ++ [N.of_nat (length m) mod 256].
+Definition ex_verify (d : did) (m s : str) : bool := str_eqb s (ex_sign m).
+Definition ex_header (d : did) : res str := Ok [1; 2].
+Example ex_accepted_and_tampered :
+  env_decode ex_verify ex_header dtok dlg_from_payload dlg_tag (env_seal ex_sign [1; 2] dlg_tag (dlg_to_payload ex_dtok)) = Ok ex_dtok /\
+  env_decode ex_verify ex_header dtok dlg_from_payload dlg_tag
+    (List [Bytes [0]; Map [(hdr_key, Bytes [1; 2]); (dlg_tag, dlg_to_payload ex_dtok)]]) = Err 15 /\
+  from_sealed ex_verify ex_header dtok dlg_from_payload dlg_tag 9
+    (to_sealed ex_sign [1; 2] dlg_tag (dlg_to_payload ex_dtok)) = Ok (canon_dtok ex_dtok).
+Proof.
+  split; [|split].
+  - apply dlg_seal_unseal; [exact ex_dtok_constructed|reflexivity|]. intros m. apply str_eqb_refl.
+  - vm_compute. reflexivity.
+  - destruct ex_dtok_seal_bytes_premises as (Hw & Hk & Hd & _).
+    apply (dlg_seal_bytes_unseal ex_verify ex_header ex_sign ex_dtok [1; 2] 9%nat); try assumption.
+    + exact ex_dtok_constructed.
+    + reflexivity.
+    + intros m. apply str_eqb_refl.
+Qed.
+
+(* ---- C08: canonical bytes are accepted; a non-minimal head and permuted map keys are not ---- *)
+Example ex_sealed_decode :
+  sealed_decode [1] = Some (Int 1) /\ sealed_decode [24; 1] = None /\
+  sealed_decode (encode (Map [(lit "a", Int 1); (lit "bb", Int 2)])) = Some (Map [(lit "a", Int 1); (lit "bb", Int 2)]) /\
+  sealed_decode [162; 98; 98; 98; 2; 97; 97; 1] = None.
+Proof. repeat split; vm_compute; reflexivity. Qed.
+
+(* ---- C01-C05: a two-link chain with policies and time bounds, allowed; its spec witness; a hook ---- *)
+Require Import Selector Chain ChainProofs.
+Definition fld (s : string) : seg := {| sk := KField (lit s); sopt := false |}.
+Definition ex_d1 : dlg := {| d_iss := lit "B"; d_aud := lit "C"; d_sub := lit "A"; d_cmd := lit "/a";
+                             d_pol := [SEq [fld "x"] (Int 1)]; d_nbf := Some 5%Z; d_exp := Some 100%Z |}.
+Definition ex_d2 : dlg := {| d_iss := lit "A"; d_aud := lit "B"; d_sub := lit "A"; d_cmd := lit "/";
+                             d_pol := [SCmp Gt [fld "y"] (Int 0)]; d_nbf := None; d_exp := None |}.
+Definition ex_ld : loader := fun c => if str_eqb c [1] then Some ex_d1 else if str_eqb c [2] then Some ex_d2 else None.
+Definition ex_inv : inv := {| i_iss := lit "C"; i_sub := lit "A"; i_aud := lit "Z"; i_cmd := lit "/a/b";
+                              i_args := Map [(lit "x", Int 1); (lit "y", Int 2)]; i_prf := [[1]; [2]]; i_exp := Some 50%Z |}.
+Example ex_chain_allowed :
+  allowed 10 ex_ld ex_inv = true /\ allowed 101 ex_ld ex_inv = false /\ allowed 4 ex_ld ex_inv = false /\
+  (exists ds, spec_allowed 10 ex_ld ex_inv (i_args ex_inv) ds) /\
+  allowed_hook 10 ex_ld (fun a => Some (Map [(lit "x", Int 1); (lit "y", Int 7)])) ex_inv = true /\
+  allowed_hook 10 ex_ld (fun a => Some (Map [(lit "x", Int 2); (lit "y", Int 7)])) ex_inv = false.
+Proof.
+  assert (H : allowed 10 ex_ld ex_inv = true) by (vm_compute; reflexivity).
+  repeat split; try (vm_compute; reflexivity). apply allowed_iff_spec. exact H.
+Qed.
+
+(* ---- C17 / C18: a CAR of two blocks under a toy hash; the cut points ---- *)
+Require Import Container ContainerProofs CarCutProofs.
+Definition ex_sha (d : str) : str := firstn 32 (d ++ repeat 0 32).
+Definition ex_mh (code len : N) (d : str) : res str := if (code =? 18) && (len =? 32) then Ok (ex_sha d) else Err 1.
+Lemma ex_sha_len d : length (ex_sha d) = 32%nat.
+Proof. unfold ex_sha. rewrite firstn_length, app_length, repeat_length. lia. Qed.
+Definition ex_blobs : list str := [[5; 6; 7]; [9]].
+Example ex_car :
+  Forall (block_ok ex_sha) ex_blobs /\
+  car_blobs ex_mh (write_car ex_sha ex_blobs) = Ok ex_blobs /\
+  (* cut exactly after the first block: the first block alone; one byte earlier or later: an error *)
+  (let n := length (write_car ex_sha [[5; 6; 7]]) in
+   car_blobs ex_mh (firstn n (write_car ex_sha ex_blobs)) = Ok [[5; 6; 7]] /\
+   (exists e, car_blobs ex_mh (firstn (n - 1) (write_car ex_sha ex_blobs)) = Err e) /\
+   (exists e, car_blobs ex_mh (firstn (n + 1) (write_car ex_sha ex_blobs)) = Err e)).
+Proof.
+  split; [repeat constructor; vm_compute; discriminate|].
+  split; [vm_compute; reflexivity|]. cbv zeta.
+  split; [vm_compute; reflexivity|]. split; eexists; vm_compute; reflexivity.
+Qed.
+
+(* ---- C19: the secretbox premises are satisfiable (a toy box), and the wrapper then round-trips ---- *)
+Require Import Meta MetaProofs.
+Definition ex_box (k n p : str) : str := k ++ n ++ p.
+Definition ex_unbox (k n c : str) : option str :=
+  if str_eqb (firstn (length k + length n) c) (k ++ n) then Some (skipn (length k + length n) c) else None.
+Example ex_box_premises :
+  (forall k n p, ex_unbox k n (ex_box k n p) = Some p) /\
+  (forall k' n c p, ex_unbox k' n c = Some p -> exists k, k' = k /\ c = ex_box k n p).
+Proof.
+  split.
+  - intros k n p. unfold ex_unbox, ex_box. rewrite app_assoc, <- app_length.
+    rewrite firstn_app_len, skipn_app_len, str_eqb_refl. reflexivity.
+  - intros k' n c p. unfold ex_unbox, ex_box. destruct (str_eqb _ _) eqn:E; [|discriminate].
+    intros [= <-]. exists k'. split; [reflexivity|]. apply str_eqb_eq in E.
+    rewrite app_assoc, <- E. symmetry. apply firstn_skipn.
+Qed.
